@@ -80,6 +80,13 @@ def run():
         if 'unsupported' in v['reorder']:
             pc['skipped'] += 1
             continue
+        if c['cls'] == 'ezo' and c.get('threads', 1) > 1 and \
+                chk.known('C01-ezo-threaded-cache'):
+            # filling this class's cache from several threads corrupts
+            # memory (C01's finding): nothing observed afterwards in that
+            # process says anything about re-ordering
+            pc['skipped'] += 1
+            continue
         if s.get('domain'):
             nghost += 1
         if sum(len(a['h']) for a in s['steps'][0]['arrays']) >= 3:
